@@ -3,6 +3,7 @@ package rules
 import (
 	"go/ast"
 	"go/types"
+	"sort"
 	"strings"
 
 	"mlverif/core"
@@ -335,6 +336,40 @@ func installPinnedNames(p *core.Prog) {
 		return
 	}
 	p.Rename = map[types.Object]string{}
+	// functions renamed since the review: a reviewed function that is missing, and exactly
+	// one new function with the same receiver and signature
+	var missing []string
+	for name := range pinnedFuncs {
+		if p.Funcs[name] == nil {
+			missing = append(missing, name)
+		}
+	}
+	sort.Strings(missing)
+	taken := map[*core.Func]bool{}
+	for _, old := range missing {
+		recv := ""
+		if i := strings.Index(old, "."); i > 0 {
+			recv = old[:i+1]
+		}
+		var cands []*core.Func
+		for _, fn := range p.SortedFuncs() {
+			if pinnedFuncs[fn.Name] || taken[fn] || !strings.HasPrefix(fn.Name, recv) || (recv == "" && strings.Contains(fn.Name, ".")) {
+				continue
+			}
+			if core.SigStr(p, fn.Obj) == pinnedSigs[old] {
+				cands = append(cands, fn)
+			}
+		}
+		if len(cands) != 1 {
+			continue
+		}
+		fn := cands[0]
+		taken[fn] = true
+		core.FuncAlias[fn.Obj] = strings.TrimPrefix(old, recv)
+		delete(p.Funcs, fn.Name)
+		fn.Name = old
+		p.Funcs[old] = fn
+	}
 	for name, fn := range p.Funcs {
 		pinned := pinnedParams[name]
 		if len(pinned) == 0 {
